@@ -247,6 +247,35 @@ func runG7(r *Repo, rep *Report) {
 					return
 				}
 			}
+			// a || b, a && b and !(…) are chains of the atomic tests
+			els0 := x.Else
+			if els0 == nil {
+				els0 = &ast.BlockStmt{}
+			}
+			switch c := ast.Unparen(x.Cond).(type) {
+			case *ast.BinaryExpr:
+				if c.Op == token.LOR {
+					inner := &ast.IfStmt{Cond: c.Y, Body: x.Body, Else: els0}
+					exec(append([]ast.Stmt{&ast.IfStmt{Cond: c.X, Body: x.Body, Else: inner}}, rest...), en, cont)
+					return
+				}
+				if c.Op == token.LAND {
+					inner := &ast.IfStmt{Cond: c.Y, Body: x.Body, Else: els0}
+					exec(append([]ast.Stmt{&ast.IfStmt{Cond: c.X, Body: &ast.BlockStmt{List: []ast.Stmt{inner}}, Else: els0}}, rest...), en, cont)
+					return
+				}
+			case *ast.UnaryExpr:
+				if _, isBin := ast.Unparen(c.X).(*ast.BinaryExpr); c.Op == token.NOT && isBin {
+					if b := ast.Unparen(c.X).(*ast.BinaryExpr); b.Op == token.LOR || b.Op == token.LAND {
+						body2, _ := els0.(*ast.BlockStmt)
+						if body2 == nil {
+							body2 = &ast.BlockStmt{List: []ast.Stmt{els0}}
+						}
+						exec(append([]ast.Stmt{&ast.IfStmt{Cond: c.X, Body: body2, Else: x.Body}}, rest...), en, cont)
+						return
+					}
+				}
+			}
 			atom, whenTrue, ok := evalCond(x.Cond, en)
 			if !ok {
 				undecided = "unrecognised condition `" + exprStr(x.Cond) + "` at " + r.pos(x.Cond.Pos())
